@@ -110,8 +110,50 @@ def _isinstance_names(test: ast.expr, var: str) -> tuple[set, set]:
 NODE_NAMES = {"Node", "Term"}
 
 
-def guarded_plain(func_node: ast.FunctionDef, call: ast.Call, var: str) -> bool:
-    """is `var` known not to be a Node/Term at `call`?"""
+def _weak_exclusion(names: set) -> bool:
+    return bool(names & NODE_NAMES)
+
+
+def node_exclusion(program: Program):
+    """predicate on a set of class names tested by isinstance: do they, together, cover every query-builder object a value
+    position can receive, i.e. every renderable subclass of the tree root Node (Term subclasses, and also Interval, Table,
+    AliasedQuery ... which are Nodes without being Terms)?"""
+    node = program.cls("Node")
+    renderable = [c for c in program.all_classes() if c.is_subclass_of(node) and c.resolve("get_sql") is not None]
+
+    def excl(names: set) -> bool:
+        guards = [g for g in (program.find_cls(n) for n in names) if g is not None]
+        return bool(guards) and all(any(c.is_subclass_of(g) for g in guards) for c in renderable)
+    return excl
+
+
+def parameterised_world(program: Program) -> set:
+    """classes that can be rendered with a parameterizer in the context: statements with a parameterised entry point, every
+    Node (any of them may sit in such a statement's tree), and the renderable helper classes their methods name.  DDL
+    builders and their parts (Column, PeriodFor ...) have no parameterised rendering and stay outside."""
+    memo = program.__dict__.setdefault("_c04_world", None)
+    if memo is not None:
+        return memo
+    node = program.cls("Node")
+    world = {c for c in program.all_classes() if c.resolve("get_parameterized_sql") is not None or c.is_subclass_of(node)}
+    work = list(world)
+    while work:
+        c = work.pop()
+        for k in c.mro:
+            for f in k.methods.values():
+                for n in ast.walk(f.node):
+                    if isinstance(n, ast.Name):
+                        r = program.resolve_global(f.module, n.id)
+                        if r and r[0] == "class" and r[1] not in world and r[1].resolve("get_sql") is not None:
+                            world.add(r[1])
+                            work.append(r[1])
+    program.__dict__["_c04_world"] = world
+    return world
+
+
+def guarded_plain(func_node: ast.FunctionDef, call: ast.Call, var: str, excl=_weak_exclusion) -> bool:
+    """is `var` known not to be a query-builder object at `call`?  `excl` decides whether a set of isinstance-tested class
+    names excludes them all"""
     parents = {}
     for n in ast.walk(func_node):
         for ch in ast.iter_child_nodes(n):
@@ -122,16 +164,16 @@ def guarded_plain(func_node: ast.FunctionDef, call: ast.Call, var: str) -> bool:
         par = parents[cur]
         if isinstance(par, ast.IfExp):
             pos, neg = _isinstance_names(par.test, var)
-            if cur is par.orelse and pos & NODE_NAMES:
+            if cur is par.orelse and excl(pos):
                 return True
-            if cur is par.body and (neg & NODE_NAMES or (pos and pos <= PLAIN_TYPES | {"list", "tuple", "dict"})):
+            if cur is par.body and (excl(neg) or (pos and pos <= PLAIN_TYPES | {"list", "tuple", "dict"})):
                 return True
         if isinstance(par, ast.If):
             pos, neg = _isinstance_names(par.test, var)
             in_body = any(cur is s or _contains(s, cur) for s in par.body)
-            if in_body and (neg & NODE_NAMES or (pos and pos <= PLAIN_TYPES)):
+            if in_body and (excl(neg) or (pos and pos <= PLAIN_TYPES)):
                 return True
-            if not in_body and pos & NODE_NAMES:
+            if not in_body and excl(pos):
                 return True
         cur = par
     # (a): dominating early return at function top level
@@ -140,7 +182,7 @@ def guarded_plain(func_node: ast.FunctionDef, call: ast.Call, var: str) -> bool:
             break
         if isinstance(st, ast.If):
             pos, neg = _isinstance_names(st.test, var)
-            if pos & NODE_NAMES and st.body and isinstance(st.body[-1], (ast.Return, ast.Raise)) and not st.orelse:
+            if excl(pos) and st.body and isinstance(st.body[-1], (ast.Return, ast.Raise)) and not st.orelse:
                 return True
     return False
 
@@ -283,6 +325,9 @@ def check(program: Program, run: Run) -> None:
 
     # ---- R3
     ws = wrapper_sites(program)
+    world = parameterised_world(program)
+    excl_all = node_exclusion(program)
+    run.analysed["classes_rendered_under_a_parameterizer"] = len(world)
     run.analysed["value_wrapper_constructor_sites"] = len(ws)
     if len(ws) < 3:
         raise AnalysisError(f"instance count below floor: value wrapper constructor sites {len(ws)}")
@@ -297,13 +342,17 @@ def check(program: Program, run: Run) -> None:
             run.ob("C04/R3 wrapped value never reaches the value list (allow_parametrize=False)", subject, True, where=f.loc(call), nontrivial=False)
             continue
         var = arg.id if isinstance(arg, ast.Name) else None
-        ok = bool(var) and guarded_plain(f.node, call, var)
+        # inside the parameterised world the guard has to exclude every Node (a `Term` test lets Interval / Table /
+        # AliasedQuery through, and the parameterizer would record the object itself); outside it (DDL parts) no value
+        # reaches a parameterizer and the constructor only has to keep terms unwrapped
+        strict = f.cls is None or f.cls in world
+        ok = bool(var) and guarded_plain(f.node, call, var, excl_all if strict else _weak_exclusion)
         if not ok and var is None and isinstance(arg, ast.Attribute):
             ok = False
         run.ob("C04/R3 wrapped value is plain data (isinstance guard dominates the constructor)", subject, ok, where=f.loc(call))
         if not ok:
             run.finding(f"C04/unguarded-wrap:{f.qualname}:{ast.unparse(arg)}",
-                        f"{f.qualname} wraps `{ast.unparse(arg)}` in a value wrapper without excluding Term/Node first: with a parameterizer the query-builder object itself lands in the value list",
+                        f"{f.qualname} wraps `{ast.unparse(arg)}` in a value wrapper without first excluding every Node (Term subclasses and the non-Term nodes Interval, Table, AliasedQuery): with a parameterizer the query-builder object itself lands in the value list",
                         where=f.loc(call), rule="R3", excerpt=f.module.excerpt(call.lineno, 1))
     # create_param arguments
     for c, (skv, ev) in sk.items():
@@ -447,5 +496,21 @@ def _placeholders(program: Program, run: Run) -> None:
     offs = [n for n in ast.walk(cp.node) if isinstance(n, ast.BinOp) and any(x in lens for x in ast.walk(n))]
     ok = bool(app) and bool(lens) and all(ln.lineno > min(app) for ln in lens) and not offs and len(app) == 1
     run.ob("C04/R4 placeholders numbered len(values) after the append (1-based, one append per parameter)", "Parameterizer.create_param", ok, where=cp.loc())
+    # the value that is recorded is the value that was handed in: a coercion on the way (str(), int(), normalisation) makes
+    # the listed value a different object from the one the inline rendering printed
+    cpi = cp
+    prms = set(cpi.params[1:])
+    rebound = sorted({t.id for n in ast.walk(cpi.node) for t in (
+        (n.targets if isinstance(n, ast.Assign) else [n.target] if isinstance(n, (ast.AugAssign, ast.AnnAssign, ast.NamedExpr)) else []))
+        if isinstance(t, ast.Name) and t.id in prms})
+    appended = [n.args[0] for n in ast.walk(cpi.node) if isinstance(n, ast.Call) and isinstance(n.func, ast.Attribute) and n.func.attr == "append"
+                and "values" in ast.unparse(n.func.value) and n.args]
+    as_given = bool(appended) and all(isinstance(a, ast.Name) and a.id in prms for a in appended) and not rebound
+    run.ob("C04/R4 the recorded value is the value handed in (no coercion before the append)", "Parameterizer.create_param", as_given,
+           detail=f"appended={[ast.unparse(a) for a in appended]} rebound={rebound}", where=cp.loc())
+    if not as_given:
+        run.finding("C04/value-transformed:Parameterizer.create_param",
+                    f"create_param records `{ast.unparse(appended[0]) if appended else '?'}`" + (f" after rebinding {', '.join(rebound)}" if rebound else "") +
+                    ": the listed value is no longer the object the inline rendering prints (a Decimal recorded as its str() is listed as text, its literal is quoted)", where=cp.loc(), rule="R4")
     if not ok:
         run.finding("C04/numbering:Parameterizer.create_param", "create_param does not number the placeholder with len(values) taken after a single append", where=cp.loc(), rule="R4")
